@@ -34,6 +34,6 @@ PrintPaths ==
      PrintT(<<"BEHAVIOUR", ToJson([scen |-> scen, final |-> ExpectedFinal,
                                    evs |-> [i \in 1..Len(hist) |->
                                              [p |-> hist[i].p, a |-> hist[i].a, o |-> hist[i].o, old |-> hist[i].old,
-                                              new |-> hist[i].new, ok |-> hist[i].ok, obs |-> hist[i].obs,
+                                              new |-> hist[i].new, ok |-> hist[i].ok, spur |-> hist[i].spur, obs |-> hist[i].obs,
                                               done |-> hist[i].done]]])>>)
 =============================================================================
